@@ -1,7 +1,7 @@
 from __future__ import annotations
 
-import codecs
 import configparser
+import io
 import os.path
 import re
 import shelve
@@ -344,7 +344,10 @@ class VFSZip(VFS_Real):
         fp = self.zip.open(item)
         if mode == "r":
             # Attempted to read in "text mode", so decode the bytestream
-            fp = codecs.getreader("utf-8")(fp, errors=errors)
+            # Like a text file on disk: universal newlines (LF, CR LF, CR) and
+            # nothing else ends a line.  A codecs.StreamReader splits lines with
+            # str.splitlines(), i.e. also at FF, VT, U+0085, U+2028 ...
+            fp = io.TextIOWrapper(fp, encoding="utf-8", errors=errors)
 
         return fp
 
